@@ -11,6 +11,7 @@ import (
 	"bytes"
 	"encoding/binary"
 	"fmt"
+	"io"
 	"runtime"
 	"strings"
 	"testing"
@@ -33,6 +34,37 @@ type c13Case struct {
 	Huge   uint32   `json:"huge,omitempty"`
 	Where  string   `json:"where,omitempty"` // which length field carries Huge
 	FragSz int      `json:"fragsz,omitempty"`
+	// Chunks: the transport hands the stream to the reader in pieces of these
+	// sizes (cyclically), as TCP does; empty = everything available at once.
+	Chunks []int `json:"chunks,omitempty"`
+}
+
+// chunkReader delivers at most chunks[i] bytes per Read call.
+type chunkReader struct {
+	r      io.Reader
+	chunks []int
+	i      int
+}
+
+func (c *chunkReader) Read(p []byte) (int, error) {
+	if len(c.chunks) > 0 && len(p) > 0 {
+		n := c.chunks[c.i%len(c.chunks)]
+		c.i++
+		if n < 1 {
+			n = 1
+		}
+		if n < len(p) {
+			p = p[:n]
+		}
+	}
+	return c.r.Read(p)
+}
+
+func (c c13Case) transport(b []byte) io.Reader {
+	if len(c.Chunks) == 0 {
+		return bytes.NewReader(b)
+	}
+	return &chunkReader{r: bytes.NewReader(b), chunks: c.Chunks}
 }
 
 func c13Bytes(n int, fill byte, nul bool) []byte {
@@ -68,6 +100,9 @@ func genC13(t *rapid.T) c13Case {
 			c.Frags = append(c.Frags, rapid.IntRange(0, c.Len+1).Draw(t, "bf"))
 		}
 		c.FragSz = pick(t, "fragsz", 1, 2, 3, 4, 7, 1024, 1<<20, 1<<20+1, 0, -1)
+		if rapid.Bool().Draw(t, "chunked") {
+			c.Chunks = rapid.SliceOfN(rapid.IntRange(1, 9), 1, 6).Draw(t, "chunks")
+		}
 	}
 	c.NUL = c.Kind == "string" && rapid.IntRange(0, 5).Draw(t, "nul") == 0
 	if rapid.IntRange(0, 3).Draw(t, "cutp") == 0 {
@@ -324,9 +359,9 @@ func runC13(tb stat.TB, c c13Case) {
 		if c.Kind == "record" {
 			stream := nfsx.Frame(rec, c.Frags...)
 			in, truncated := cut(stream)
-			rd := absnfs.NewRecordMarkingReader(bytes.NewReader(append(append([]byte{}, in...), nfsx.Frame(c13Sentinel)...)))
+			rd := absnfs.NewRecordMarkingReader(c.transport(append(append([]byte{}, in...), nfsx.Frame(c13Sentinel)...)))
 			if truncated {
-				rd = absnfs.NewRecordMarkingReader(bytes.NewReader(in))
+				rd = absnfs.NewRecordMarkingReader(c.transport(in))
 			}
 			var out []byte
 			var err error
@@ -353,7 +388,7 @@ func runC13(tb stat.TB, c c13Case) {
 				}
 			default:
 				if err != nil || !bytes.Equal(out, rec) {
-					viol("record-reassembly-differs", "ReadRecord over fragments %v of a %d-byte record returned %d bytes, err %v", c.Frags, c.Len, len(out), err)
+					viol("record-reassembly-differs", "ReadRecord over fragments %v (delivered in chunks %v) of a %d-byte record returned %d bytes, err %v", c.Frags, c.Chunks, c.Len, len(out), err)
 					return
 				}
 				next, err2 := rd.ReadRecord()
